@@ -278,14 +278,12 @@ private def bodyN : List Item :=
 private def sheetN : List Top :=
   [.mdef ".f" ⟨[], [], bodyN⟩, .rule [".r"] [.decl "a" [.lit "b"], .call ".f" []]]
 
-private theorem reachesN : Reaches (fun pre => quietItems pre = true) ".f" bodyN :=
-  .inside [.decl "c" [.lit "red"]] [".x"] _ [.decl "z" [.lit "3"]] rfl
-    (.inside [.decl "d" [.lit "1"]] [".y"] _ [.decl "e" [.lit "2"]] rfl (.here [] [] rfl))
-
 example : gasBoundSheet sheetN = 198 := by decide +kernel
 example (g : Nat) (hg : 198 ≤ g) : compile g sheetN = .error (.nameError ".f") :=
-  C20_mixin_self_compile sheetN ".f" bodyN [".r"] _ [] (by decide +kernel) reachesN rfl
-    (.here [.decl "a" [.lit "b"]] [] rfl) g hg
+  C20_mixin_self_compile sheetN ".f" bodyN [".r"] _ [] (by decide +kernel)
+    (.inside [.decl "c" [.lit "red"]] [".x"] _ [.decl "z" [.lit "3"]] rfl
+      (.inside [.decl "d" [.lit "1"]] [".y"] _ [.decl "e" [.lit "2"]] rfl (.here [] [] rfl)))
+    rfl (.here [.decl "a" [.lit "b"]] [] rfl) g hg
 /-- … and the executable model agrees -/
 example : compile 198 sheetN = .error (.nameError ".f") := compile_of_F 600 _ _ _ (by decide +kernel)
 
@@ -313,9 +311,15 @@ example (g : Nat) (sc : Scope) (me : List Sel) (hg : gasBound tbl3 [.call ".a" [
     evalItems tbl3 g 0 false sc me [.call ".a" []] = .error (.nameError ".c") :=
   C20_mixin_cycle tbl3 [".a", ".b", ".c"] (by decide)
     (fun i hi => match i, hi with
-      | 0, _ => ⟨_, by decide +kernel, .here [] [] rfl⟩
-      | 1, _ => ⟨_, by decide +kernel, .here [.decl "w" [.lit "1"]] [] rfl⟩
-      | 2, _ => ⟨_, by decide +kernel, .inside [] [".x"] _ [] rfl (.here [] [] rfl)⟩)
+      | 0, _ => ⟨[.call ".b" []],
+          (by decide +kernel : tbl3.candidates ".a" = [⟨[], [], [.call ".b" []]⟩]),
+          .here [] [] rfl⟩
+      | 1, _ => ⟨[.decl "w" [.lit "1"], .call ".c" []],
+          (by decide +kernel : tbl3.candidates ".b" = [⟨[], [], [.decl "w" [.lit "1"], .call ".c" []]⟩]),
+          .here [.decl "w" [.lit "1"]] [] rfl⟩
+      | 2, _ => ⟨[.rule [".x"] [.call ".a" []]],
+          (by decide +kernel : tbl3.candidates ".c" = [⟨[], [], [.rule [".x"] [.call ".a" []]]⟩]),
+          .inside [] [".x"] _ [] rfl (.here [] [] rfl)⟩)
     0 (by decide) g 0 false sc me [] hg
 example : gasBound tbl3 [.call ".a" []] = 131 := by decide +kernel
 example : evalItems tbl3 131 0 false [[], []] [[".r"]] [.call ".a" []] = .error (.nameError ".c") :=
